@@ -57,12 +57,12 @@ def random_song(rng, ntracks=None, maxev=10, loops="none", tempo_changes=True, f
         place_loops(rng, song, loops)
     return song
 
-def place_loops(rng, song, mode):
-    """mode: valid | startonly | endonly | invalid | random"""
+def place_loops(rng, song, mode, force_cc=False):
+    """mode: valid | startonly | endonly | invalid | hmi | emidi | random"""
     if mode == "random":
-        mode = rng.choice(["valid", "valid", "valid", "startonly", "endonly", "invalid"])
+        mode = rng.choice(["valid", "valid", "valid", "startonly", "endonly", "invalid", "hmi", "emidi"])
     tr = song["tracks"][rng.randrange(len(song["tracks"]))]["ev"]
-    use_cc = rng.random() < 0.25
+    use_cc = force_cc or rng.random() < 0.25
     def ins(pos, kind, dt):
         if kind == "loopstart" and use_cc:
             tr.insert(pos, [dt, {"k": "cc111", "ch": 0, "v": 0}])     # CC111 = loop start (RPG Maker convention)
@@ -77,6 +77,20 @@ def place_loops(rng, song, mode):
         ins(rng.randrange(1, n + 1), "loopstart", rng.choice([0, 1, 48]))
     elif mode == "endonly":
         ins(rng.randrange(1, n + 1), "loopend", rng.choice([1, 48]))
+    elif mode == "hmi":
+        # HMI style: CC110 = loop start, the CC111 that FOLLOWS it in the file = loop end
+        a = rng.randrange(1, max(2, n - 1)); b = rng.randrange(a + 1, n + 1)
+        tr.insert(b, [rng.choice([1, 48, 96]), {"k": "cc111", "ch": 0, "v": 0}])
+        tr.insert(a, [rng.choice([0, 1, 48]), {"k": "cc", "ch": 0, "n": 110, "v": 0}])
+    elif mode == "emidi":
+        # a second CC110 makes the file EMIDI style: later CC110 / CC111 are plain controllers, CC113 is the volume (CC7);
+        # the first CC110 stays the loop start, a CC111 met before the second CC110 stays the loop end
+        a = rng.randrange(1, max(2, n - 1)); b = rng.randrange(a + 1, n + 1)
+        tr.insert(b, [rng.choice([1, 48]), {"k": "cc", "ch": 0, "n": 113, "v": rng.choice([0, 64, 127])}])
+        tr.insert(b, [rng.choice([0, 10]), {"k": "cc111", "ch": 0, "v": 0}])
+        tr.insert(b, [rng.choice([1, 48]), {"k": "cc", "ch": 0, "n": 110, "v": 0}])
+        if rng.random() < 0.5: tr.insert(b, [rng.choice([1, 48]), {"k": "cc111", "ch": 0, "v": 0}])
+        tr.insert(a, [rng.choice([0, 1, 48]), {"k": "cc", "ch": 0, "n": 110, "v": 0}])
     else:
         k = rng.randrange(4)
         a = rng.randrange(1, max(2, n - 1)); b = rng.randrange(a + 1, n + 1)
@@ -171,6 +185,18 @@ def reload_history(rng, song_a, song_b):
     h += [song_b, {"e": "Load"}]
     h += rewind_prelude(rng)
     h.append({"e": "PlayTicks", "steps": [], "max": 3000})
+    return h
+
+
+def loop_reload_history(rng, song_a, song_b):
+    """two looping songs in a row on one instance: what the first file made of its loop controllers (CC110 / CC111 styles,
+    markers) must not outlive the load of the second"""
+    h = [{"e": "Init", "rate": 44100, "chips": 2}, song_a, {"e": "SetHooks"}, {"e": "SetLoop", "en": 1},
+         {"e": "SetLoopCount", "n": rng.choice([2, 2, 3])}, {"e": "Load"}]
+    r = rng.random()
+    if r < 0.3: h.append({"e": "PlayTicks", "steps": [], "max": rng.choice([2, 5, 9]), "partial": 1})
+    elif r < 0.5: h.append({"e": "PlayTicks", "steps": [], "max": 3000})
+    h += [song_b, {"e": "Load"}, {"e": "PlayTicks", "steps": [], "max": 3000}]
     return h
 
 
